@@ -96,6 +96,10 @@ func runC01(p *Prog, r *Result) {
 	checkSeparatorFlagCleared(p, r, "R01i")
 	r.Rule("R01j", "whatever root Print is given, every path from the call that writes it to Print's return passes flushHeredocs: a queued body is not left unwritten", 4)
 	checkPrintFlushesHeredocs(p, r, "R01j")
+	r.Rule("R01m", "wherever a redirection operator is tested against `<<`, the same if chain or switch mentions `<<-` as well", 3)
+	checkHeredocOperatorsTogether(p, r, "R01m")
+	r.Rule("R01n", "inside flushHeredocs the printer indents a closing line only where the indentation is tabs (p.indentSpaces == 0): <<- strips nothing else", 1)
+	checkHeredocCloserIndentedWithTabs(p, r, "R01n")
 	r.Rule("R01l", "every unary arithmetic operator whose text begins with + or - gets a space before it at the start of a slice offset: `${a: --b}` is not `${a:--b}`", 4)
 	checkSliceSignsSpaced(p, r, "R01l")
 	r.Rule("R01k", "the printer sets pending here-documents aside around a nested statement list exactly for the node types whose statements the parser reads with the pending list buried", 6)
@@ -485,6 +489,10 @@ func inDefaultOfRootSwitch(g *FGraph, b *FBlock) bool {
 }
 
 var c01Controls = []Control{
+	{Name: "dash-heredoc-closer-indented-with-spaces", Rule: "R01n", WantKey: "flushHeredocs#indentation 1", File: "syntax/printer.go",
+		Mutate: ctlReplaceAnywhere("\t\tif r.Op == DashHdoc && p.indentSpaces == 0 && !p.minify {", "\t\tif r.Op == DashHdoc && !p.minify {")},
+	{Name: "early-redirects-stop-at-plain-heredocs-only", Rule: "R01m", WantKey: "printRedirsUntil#test", File: "syntax/printer.go",
+		Mutate: ctlReplaceAnywhere("\t\tif r.Pos().After(pos) || r.Op == Hdoc || r.Op == DashHdoc {", "\t\tif r.Pos().After(pos) || r.Op == Hdoc {")},
 	{Name: "slice-offset-increment-glued-to-the-colon", Rule: "R01l", WantKey: "arithmExprRecurse#a leading Dec", File: "syntax/printer.go",
 		Mutate: ctlReplaceAnywhere("\t\t\t\tcase Plus, Minus, Inc, Dec:\n", "\t\t\t\tcase Plus, Minus:\n")},
 	{Name: "process-substitution-flushes-outer-heredocs", Rule: "R01k", WantKey: "wordPart#statements of ProcSubst", File: "syntax/printer.go",
